@@ -119,4 +119,27 @@ CLAIMS = {
           'the leak itself is only visible by running the code; SHA-1 digests stand for texts; reuse=maps goes through a wrapper of map_if.load_map_file. Trusted: TLC, masking/projection in lib/c18_worker.py.',
   'technique': 'TLA+ model checking (TLC) + replay of TLC-enumerated call histories in fresh interpreters + TLC trace validation of the recorded observations',
  },
+ 'C08': {
+  'text': 'Model: TLC checks on XmlGen that the coded pop/push step of x12xml_simple.seg (list-wise match index, character-wise common prefix, match_idx -= 1, repeat case) equals the definition '
+          'step DefStep for every transition between loop paths of a 3-id x depth-3 tree, that the open elements always spell the loop path, and Unescape(Escape(s)) = s with no markup left for all '
+          'strings <= 4/5 over {a & < > \' ; l t} (content and attribute escaping); a second run with character-prefix sibling ids reports the latent differences as information. Code: conformant '
+          'documents from TLC DocGen (coverage set, documents with one loop id at two paths, random deep walks) with & < > \' " and blanks in free-text values under 3 delimiter triples are converted '
+          'by x12n_document(fd_xmldoc) and back by xmlx12_simple.convert; T_Xml (TLC) validates well-formedness, the loop/segment event sequence against DefStep over the map path of the node each '
+          'segment matched, that the ele/subele labels are reference designators rebuilding the source segment (not-used elements and ISA separator fields excepted), and the round trip.',
+  'note': 'Placement oracle = the node pyx12 matched (callback), itself bound to the walker transcription in C02; sibling nodes reporting one path are told apart by their qualifier codes; the base-class '
+          'seg_context output and DTD validity are not covered. No shipped map has character-prefix sibling loop ids (scanned), so the latent step difference cannot manifest there.',
+  'technique': 'TLA+ model checking (TLC) of the XML path state machine and escaping + replay of TLC-generated documents through both converters + TLC trace validation',
+ },
+ 'C15': {
+  'text': 'TLC enumerates ElemValidGen (723 element definition classes: usage x 17 type/length shapes x code list none/inline/external/both x pattern none/matching/not x version; value catalogue at '
+          'every boundary: lengths min-1..max+1, sign/point forms, control characters, blanks, character-set edges, list members/non-members, invalid date/time/number forms; charset B/E, exclusion '
+          'on/off, qualifier type lists; 27 two-component composites x 40 value lists), checks that the transcription of element_if/composite_if.is_valid (ElemValidImpl) is admissible for the definition '
+          'ElemValid.tla and exact on single violations, and emits 77k cases with their admissible reports; every case is replayed on real nodes of a generated map loaded by load_map_file. For every '
+          'element and composite node of every loadable shipped map x the value catalogue of its definition x charset B/E x three exclusion settings (and DTP03/1251 elements through segment_if.is_valid '
+          'with every allowed qualifier), is_valid is called with errh_list; the log (definition read by an independent XML reading, value code points, result, codes) is de-duplicated and trace-validated '
+          'by TLC (T_ElemValid) - all 1856+115 signatures in the thorough tier, a stratified 15% in quick.',
+  'note': 'Several constraints broken at once: only result false, non-empty report within the implied codes (no precedence claimed); for composites 2|1 and 5|10 are admitted; regex = Python re; external '
+          'membership = own reading of codes.xml; not covered: 841.4010.XXXC (does not load), nodes with undefined data elements. Trusted: TLC, lib/c15_*.py projections.',
+  'technique': 'TLA+ model checking (TLC) of Impl-admissible-for-Def + replay of TLC cases on real map nodes + TLC trace validation of the complete recorded table',
+ },
 }
